@@ -1,0 +1,8 @@
+//go:build !verif
+
+// Package vhook provides observation points for the external verification
+// harness. Without the `verif` build tag every function is an empty stub.
+package vhook
+
+// At marks a program point. It does nothing unless built with -tags verif.
+func At(name string, arg any) {}
